@@ -15,6 +15,9 @@ use std::time::Duration;
 static CONTROLLED: AtomicBool = AtomicBool::new(false);
 static TAPS_ON: AtomicBool = AtomicBool::new(false);
 static EPOCH: AtomicU64 = AtomicU64::new(1);
+static PROBE_ON: AtomicBool = AtomicBool::new(false);
+static HELD_PROBE: Mutex<Option<fn() -> Vec<String>>> = Mutex::new(None);
+static HELD_AT_POINTS: Mutex<Vec<(&'static str, String)>> = Mutex::new(Vec::new());
 
 thread_local! {
     static ME: Cell<(u64, usize)> = Cell::new((0, 0));
@@ -127,13 +130,38 @@ pub fn register(role: &str) -> Registration {
 /// A schedule point: in controlled mode a registered thread parks here until the driver grants it.
 #[inline]
 pub fn point(name: &'static str) {
+    if PROBE_ON.load(Ordering::Relaxed) { probe_held(name); }
     if !CONTROLLED.load(Ordering::Relaxed) { return; }
     point_slow(name, None);
+}
+
+/// Installs a function that reports which locks the calling thread holds (supplied by an instrumented lock
+/// implementation); from then on every schedule point records the distinct (point, held locks) pairs it sees.
+pub fn set_held_probe(probe: Option<fn() -> Vec<String>>) {
+    let on = probe.is_some();
+    *HELD_PROBE.lock().unwrap_or_else(|poisoned| poisoned.into_inner()) = probe;
+    HELD_AT_POINTS.lock().unwrap_or_else(|poisoned| poisoned.into_inner()).clear();
+    PROBE_ON.store(on, Ordering::Release);
+}
+
+/// The distinct (schedule point, locks held there) pairs recorded since `set_held_probe`.
+pub fn held_at_points() -> Vec<(&'static str, String)> {
+    HELD_AT_POINTS.lock().unwrap_or_else(|poisoned| poisoned.into_inner()).clone()
+}
+
+fn probe_held(name: &'static str) {
+    let probe = *HELD_PROBE.lock().unwrap_or_else(|poisoned| poisoned.into_inner());
+    if let Some(probe) = probe {
+        let held = probe().join(";");
+        let mut seen = HELD_AT_POINTS.lock().unwrap_or_else(|poisoned| poisoned.into_inner());
+        if !seen.iter().any(|(point, locks)| *point == name && *locks == held) { seen.push((name, held)); }
+    }
 }
 
 /// A schedule point before an action that needs `need` (a lock that may be held across points, or room in a queue).
 #[inline]
 pub fn point_need(name: &'static str, need: impl FnOnce() -> String) {
+    if PROBE_ON.load(Ordering::Relaxed) { probe_held(name); }
     if !CONTROLLED.load(Ordering::Relaxed) { return; }
     point_slow(name, Some(need()));
 }
